@@ -79,6 +79,7 @@ class SrtContext:
     self._end: Fraction = Fraction(0)
     self._paragraphs: List[SrtParagraph] = []
     self._text_formatting = config.text_formatting
+    self._has_visible_text: bool = False
 
   def append_element(self, element: model.ContentElement, begin: Fraction, end: Optional[Fraction]):
     """Converts model element to SRT content"""
@@ -94,13 +95,14 @@ class SrtContext:
       self._paragraphs.append(SrtParagraph(self._captions_counter))
       self._paragraphs[-1].set_begin(begin)
       self._paragraphs[-1].set_end(end)
+      self._has_visible_text = False
 
       for elem in list(element):
         self.append_element(elem, begin, end)
 
       self._paragraphs[-1].normalize_eol()
 
-      if self._paragraphs[-1].is_only_whitespace():
+      if self._paragraphs[-1].is_only_whitespace() or not self._has_visible_text:
         LOGGER.debug("Removing empty paragraph.")
         self._paragraphs.pop()
 
@@ -142,6 +144,8 @@ class SrtContext:
       self._paragraphs[-1].append_text("\n")
 
     if isinstance(element, model.Text):
+      if not element.get_text().isspace():
+        self._has_visible_text = True
       self._paragraphs[-1].append_text(element.get_text())
 
   def add_isd(self, isd, begin: Fraction, end: Optional[Fraction]):
